@@ -4,7 +4,7 @@
    every run) evaluated over the reals. *)
 From Coq Require Import ZArith List Bool Reals Lra.
 From Coquelicot Require Import Coquelicot.
-From GTCV Require Import Num RNum Vector VectorFacts Opres KTypes Kernel DerivTable ChainRule LPU TBLib TypeB TypeBFacts.
+From GTCV Require Import Num RNum Vector VectorFacts Opres KTypes Kernel DerivTable ChainRule LPU Transparency TBLib TypeB TypeBFacts TypeBWtls.
 From GTCV.gen Require Import Gen_type_b.
 Import ListNotations.
 Local Open Scope R_scope.
@@ -165,50 +165,112 @@ Theorem C14_merge :
 Proof. exact merge_tree. Qed.
 Print Assumptions C14_merge.
 
-(* (7) "labels only label": the label step of the prediction methods is result(x, label=...).
-   The translator reports whether the name `result` is bound in type_b.py: when it is, the step
-   is exactly core.result (C06: same value and components); when it is not (the pinned tree: known
-   finding C14-label) every labelled call raises (NameError) instead of labelling. *)
-Theorem C14_label_step :
-  forall (s : KTypes.state R) (m : TBLib.mval RNum) (l : Z),
-    is_ME RNum m = true ->
-    if g_tb_result_bound
-    then forall s1 o1, finish_pred RNum s (Ok m) None = (s1, o1) -> (forall e, o1 <> OutExn e) ->
-                       finish_pred RNum s (Ok m) (Some l) = step RNum s1 (OpResult (length (s_slots s)) (Some l))
-    else exists e, snd (finish_pred RNum s (Ok m) (Some l)) = OutExn e.
+(* (7) "labels only label": the label step of the prediction methods is result(x, label=...), and
+   `result` is bound in type_b.py (the translator reports it; fixed finding C14-label: on the
+   unrepaired tree the name was unbound, every labelled call raised NameError, and this theorem
+   does not compile).  The labelled prediction is the unlabelled object declared intermediate:
+   same value, same components of uncertainty; one intermediate component is added. *)
+Theorem C14_label_only_labels :
+  forall (s : KTypes.state R) (t : Kernel.expr RNum) (o : KTypes.ureal R) (l : Z) s' x' u' d' i' k',
+    not_var t -> eval_obj RNum s (ME t) = Ok o -> unode o = NoNode ->
+    finish_pred RNum s (Ok (ME t)) (Some l) = (s', OutObj x' u' d' i' k') ->
+    x' = ux o /\ u' = uc o /\ d' = dc o /\
+    exists k (un : R), k' = KInterm k /\ i' = @Vector.merge RNum (ic o) [(k, un)].
+Proof. exact label_only_labels. Qed.
+Print Assumptions C14_label_only_labels.
+
+Theorem C14_result_is_bound : g_tb_result_bound = true.
+Proof. reflexivity. Qed.
+
+(* (8) WTLS: dChiSq_dalpha is the derivative of ChiSq -- for the GENERATED code, every number of
+   points, correlated pairs included (fixed finding C14-wtls-cov: on the unrepaired tree `_arrays`
+   counted the x-y covariance twice in g_k, this statement was false and its proof does not compile).
+   Trees are read with x**2 = x*x (sem2; Python's value also for a negative base).  alpha is the
+   tree variable (input k); x y are the data values ChiSq holds, xu yu the uncertain data
+   dChiSq_dalpha holds, u2x u2y cov the weights; none depends on alpha; ev is the evaluator used by
+   `x != 0` in fix_div_by_zero (it returns values at the data point e0); no g_k vanishes there. *)
+Theorem C14_wtls_dChiSq_dalpha_is_derivative_of_ChiSq :
+  forall (Fi : nat -> env -> R) (ev : Kernel.expr RNum -> res R) (e0 : env),
+    (forall t v, ev t = Ok v -> v = sem2 Fi t e0) ->
+    forall (k : key) (alpha : TBLib.mval RNum),
+    (forall t, den2 Fi alpha (upd e0 k t) = t) ->
+    forall x y xu yu u2x u2y cov : list (TBLib.mval RNum),
+    cst Fi e0 k x -> cst Fi e0 k y -> cst Fi e0 k xu -> cst Fi e0 k yu ->
+    cst Fi e0 k u2x -> cst Fi e0 k u2y -> cst Fi e0 k cov ->
+    dlist2 Fi xu e0 = dlist2 Fi x e0 -> dlist2 Fi yu e0 = dlist2 Fi y e0 ->
+    length x = length y -> length x = length u2x -> length x = length u2y -> length x = length cov ->
+    (forall d, In d (Dat Fi e0 x y u2x u2y cov) -> gS d (e0 k) <> 0) ->
+    forall vo co vo' co' chi F,
+    g_ChiSq_call RNum ev vo co xu yu x y u2x u2y cov alpha = Ok chi ->
+    g_dChiSq_dalpha_call RNum ev vo' co' xu yu u2x u2y cov alpha = Ok F ->
+    Dat Fi e0 x y u2x u2y cov <> [] -> S0 (Dat Fi e0 x y u2x u2y cov) (e0 k) <> 0 ->
+    is_derive (fun t => den2 Fi chi (upd e0 k t)) (e0 k) (den2 Fi F e0).
 Proof.
-  intros s m l Hm. destruct g_tb_result_bound eqn:Hb.
-  - destruct m as [v|t]; [discriminate|]. unfold finish_pred. rewrite Hb.
-    match goal with |- forall s1 o1, match ?X with Ok p => _ | Err ex => _ end = _ -> _ =>
-      destruct X as [[s1' o1']|ex] end.
-    + intros s1 o1 [= <- <-] _. reflexivity.
-    + intros s1 o1 H Hne. exfalso. unfold fail in H. injection H as _ <-. eapply Hne; reflexivity.
-  - apply label_step_raises; assumption.
+  intros Fi ev e0 Hev k alpha Ha x y xu yu u2x u2y cov Cx Cy Cxu Cyu Ca Cb Cc Vx Vy L1 L2 L3 L4 Hg vo co vo' co' chi F.
+  exact (dChiSq_dalpha_is_derivative_of_ChiSq Fi ev e0 Hev k alpha Ha x y xu yu u2x u2y cov
+           Cx Cy Cxu Cyu Ca Cb Cc Vx Vy L1 L2 L3 L4 Hg vo co vo' co' chi F).
 Qed.
-Print Assumptions C14_label_step.
+Print Assumptions C14_wtls_dChiSq_dalpha_is_derivative_of_ChiSq.
 
-(* (8) WTLS -- PARTIAL.  Proved here only about the formulas of the per-point variance g_k
-   (eqn 53 as written in `_arrays`) and of its derivative g_ka (eqn 54 as written in
-   dChiSq_dalpha.arrays), transcribed by hand: the source's g_k counts the x-y covariance twice,
-   its g_ka is the derivative of the CORRECT variance u2x sin^2 + u2y cos^2 - 2 sin cos cov, so
-   "dChiSq_dalpha is the derivative of ChiSq" is FALSE of the code as soon as a pair is correlated
-   (known finding C14-wtls-cov, replayed on the implementation on every run) and true for
-   uncorrelated pairs at the level of g_k.  The minimiser, the implicit-function step and the
-   back-substitution are tied by bit-exact correspondence only. *)
-Theorem C14_wtls_gk_refuted_partial :
-  exists u2x u2y cov a D, is_derive (gk_src u2x u2y cov) a D /\ D <> gka_src u2x u2y cov a.
-Proof. exact wtls_gk_derivative_refuted. Qed.
-Print Assumptions C14_wtls_gk_refuted_partial.
+(* what the two generated calls denote: the profile chi-squared of Krystek & Anton and eqn (56) *)
+Theorem C14_wtls_ChiSq_denotes :
+  forall (Fi : nat -> env -> R) (ev : Kernel.expr RNum -> res R) (e0 : env),
+    (forall t v, ev t = Ok v -> v = sem2 Fi t e0) ->
+    forall (k : key) (alpha : TBLib.mval RNum),
+    (forall t, den2 Fi alpha (upd e0 k t) = t) ->
+    forall x y xu yu u2x u2y cov : list (TBLib.mval RNum),
+    cst Fi e0 k x -> cst Fi e0 k y -> cst Fi e0 k u2x -> cst Fi e0 k u2y -> cst Fi e0 k cov ->
+    length x = length y -> length x = length u2x -> length x = length u2y -> length x = length cov ->
+    (forall d, In d (Dat Fi e0 x y u2x u2y cov) -> gS d (e0 k) <> 0) ->
+    forall vo co chi,
+    g_ChiSq_call RNum ev vo co xu yu x y u2x u2y cov alpha = Ok chi ->
+    forall t, den2 Fi chi (upd e0 k t) = chiS (Dat Fi e0 x y u2x u2y cov) t.
+Proof.
+  intros Fi ev e0 Hev k alpha Ha x y xu yu u2x u2y cov Cx Cy Ca Cb Cc L1 L2 L3 L4 Hg vo co chi.
+  exact (ChiSq_call_spec Fi ev e0 Hev k alpha Ha x y xu yu u2x u2y cov Cx Cy Ca Cb Cc L1 L2 L3 L4 Hg vo co chi).
+Qed.
+Print Assumptions C14_wtls_ChiSq_denotes.
 
-Theorem C14_wtls_gk_partial :
+(* the two constructors with explicit weights build the same lists: u2 = u**2 (= u*u) and
+   cov_k = u_x_k * u_y_k * r_k *)
+Theorem C14_wtls_constructors_explicit :
+  forall (Fi : nat -> env -> R) ev vo co x y ux uy r cxu cyu cx cy cA cB cC dx dy dA dB dC,
+    g_ChiSq_init RNum ev vo co x y (Some ux) uy r = Ok (cxu, cyu, cx, cy, cA, cB, cC) ->
+    g_dChiSq_dalpha_init RNum ev vo co x y (Some ux) uy r = Ok (dx, dy, dA, dB, dC) ->
+    cxu = x /\ cyu = y /\ dx = x /\ dy = y /\ dA = cA /\ dB = cB /\ dC = cC /\
+    (forall e, dlist2 Fi cA e = map (fun u => u * u) (dlist2 Fi ux e)) /\
+    (forall e, dlist2 Fi cB e = map (fun u => u * u) (dlist2 Fi uy e)) /\
+    (forall e, dlist2 Fi cC e = map (fun p => fst p * fst (snd p) * snd (snd p))
+                                    (zip3 (dlist2 Fi ux e) (dlist2 Fi uy e) (dlist2 Fi r e))).
+Proof. exact inits_explicit. Qed.
+Print Assumptions C14_wtls_constructors_explicit.
+
+(* the statement over the reals (envelope argument), and the residual variance *)
+Theorem C14_wtls_envelope :
+  forall (D : list pt5) (a : R),
+    INR (length D) <> 0 -> S0 D a <> 0 -> (forall d, In d D -> gS d a <> 0) ->
+    is_derive (chiS D) a (FS D a).
+Proof. exact dchisq_is_derivative_of_chisq. Qed.
+Print Assumptions C14_wtls_envelope.
+
+Theorem C14_wtls_gk :
   forall u2x u2y cov a,
-    is_derive (gk_true u2x u2y cov) a (gka_src u2x u2y cov a) /\
-    gk_src u2x u2y cov a = gk_true u2x u2y cov a - cov * sin (2 * a) /\
-    is_derive (gk_src u2x u2y cov) a (gka_src u2x u2y cov a - 2 * cov * cos (2 * a)).
-Proof.
-  intros. split; [apply gk_true_derive|split; [apply gk_src_vs_true|apply gk_src_derive]].
-Qed.
-Print Assumptions C14_wtls_gk_partial.
+    gk_src u2x u2y cov a = gk_true u2x u2y cov a /\
+    is_derive (gk_src u2x u2y cov) a (gka_src u2x u2y cov a).
+Proof. intros; split; [apply gk_src_is_variance|apply gk_src_derive]. Qed.
+Print Assumptions C14_wtls_gk.
+
+(* non-vacuity of (8): one point (x, y, u2x, u2y, cov) = (1, 2, 1, 1, 0), alpha = 0 *)
+Example C14_wtls_nonvacuous :
+  (exists chi, g_ChiSq_call RNum ex_ev (fun _ => Ok 0) (fun _ _ => Ok 0) one1 two1 one1 two1 one1 one1 zero1 ex_alpha = Ok chi) /\
+  (exists F, g_dChiSq_dalpha_call RNum ex_ev (fun _ => Ok 0) (fun _ _ => Ok 0) one1 two1 one1 one1 zero1 ex_alpha = Ok F) /\
+  (forall t v, ex_ev t = Ok v -> v = sem2 exFi t ex_e0) /\
+  (forall t, den2 exFi ex_alpha (upd ex_e0 kx t) = t) /\
+  cst exFi ex_e0 kx one1 /\ cst exFi ex_e0 kx two1 /\ cst exFi ex_e0 kx zero1 /\
+  Dat exFi ex_e0 one1 two1 one1 one1 zero1 = [(1, 2, 1, 1, 0)] /\
+  (forall d, In d (Dat exFi ex_e0 one1 two1 one1 one1 zero1) -> gS d (ex_e0 kx) <> 0) /\
+  S0 (Dat exFi ex_e0 one1 two1 one1 one1 zero1) (ex_e0 kx) <> 0.
+Proof. destruct ex_calls as [A B]. split; [exact A|split; [exact B|exact ex_hyps]]. Qed.
 
 (* non-vacuity: three points with uncertain x and y (slots 0..2 and 3..5): the generated
    line_fit succeeds, and at a data point with x = (0, 1, 2) the determinant is 6 *)
